@@ -675,6 +675,52 @@ pub fn l1_enumerate(thorough: bool) -> Vec<L1> {
             }
             Kind::Exit => {}
         }
+        // fields the instruction does not use, set to values that mean something in other ISA
+        // versions or to plain noise: the verifier accepts them and the semantics ignore them
+        // (e.g. offset 8/16/32 on a register move is MOVSX in ISA v4, which rbpf does not implement)
+        let noise_off = [8i16, 16, 32, 1, -1];
+        match k {
+            Kind::Alu { reg, .. } => {
+                for (d, sr) in [(2u8, 3u8), (4, 4)] {
+                    for off in noise_off {
+                        let (src, imm) = if reg { (sr, 0x1234) } else { (sr, -0x7f) };
+                        v.push(mk(L1Kind::Alu, I::new(opc, d, src, off, imm), 0, pick_base(d, sr, 0), 0));
+                    }
+                    if reg {
+                        v.push(mk(L1Kind::Alu, I::new(opc, d, sr, 0, -1), 0, pick_base(d, sr, 0), 0));
+                    } else {
+                        v.push(mk(L1Kind::Alu, I::new(opc, d, 10, 0, 33), 0, pick_base(d, d, 0), 0));
+                    }
+                }
+            }
+            Kind::Neg { .. } | Kind::End { .. } => {
+                let w = if matches!(k, Kind::End { .. }) { 32 } else { 0x55 };
+                for off in noise_off {
+                    v.push(mk(L1Kind::Alu, I::new(opc, 2, 3, off, w), 0, pick_base(2, 3, 0), 0));
+                }
+            }
+            Kind::Jcc { reg, .. } => {
+                for off_noise_imm in [0x1234, -1] {
+                    if reg {
+                        v.push(mk(L1Kind::Jmp, I::new(opc, 2, 3, 0, off_noise_imm), 0, pick_base(2, 3, 0), 0));
+                    }
+                }
+                if !reg {
+                    for sr in [1u8, 10] {
+                        v.push(mk(L1Kind::Jmp, I::new(opc, 2, sr, 0, 2), 0, pick_base(2, 2, 0), 0));
+                    }
+                }
+            }
+            Kind::Ja => {
+                v.push(mk(L1Kind::Jmp, I::new(opc, 3, 4, 0, 0x1234), 0, 6, 0));
+            }
+            Kind::LdDw => {
+                for off in noise_off {
+                    v.push(mk(L1Kind::Lddw, I::new(opc, 2, 1, off, 0x11223344), 0x55667788, pick_base(2, 2, 0), 0));
+                }
+            }
+            _ => {}
+        }
     }
     v
 }
@@ -1369,6 +1415,288 @@ pub fn replay_l4(v: &Value) -> Vec<String> {
 }
 
 // ------------------------------------------------------------------------------------------
+// Layer 5: jump distances in machine-code bytes, and instructions that are jump targets
+
+/// a x `add64 r0,1` (7 bytes of x86) then b x `mov64 r3,r0` (3 bytes): every byte distance.
+fn l5_fillers(a: usize, b: usize) -> Vec<I> {
+    let mut v = vec![isa::add64i(0, 1); a];
+    v.extend(vec![isa::mov64r(3, 0); b]);
+    v
+}
+
+/// shape 0: backward conditional loop; 1: backward ja; 2: forward taken jcc; 3: forward ja;
+/// 4: forward not-taken jcc
+pub fn l5_distance_program(shape: u8, a: usize, b: usize) -> Vec<I> {
+    let f = l5_fillers(a, b);
+    let n = f.len() as i16;
+    let mut p = vec![isa::mov64i(0, 0), isa::mov64i(3, 0)];
+    match shape {
+        0 => {
+            p.push(isa::mov64i(6, 3));
+            p.extend(f);
+            p.push(isa::add64i(6, -1));
+            p.push(I::new(0x55, 6, 0, -(n + 2), 0)); // jne r6, 0, loop
+        }
+        1 => {
+            p.push(isa::mov64i(6, 2));
+            p.extend(f);
+            p.push(isa::add64i(6, -1));
+            p.push(I::new(0x15, 6, 0, 1, 0)); // jeq r6, 0, +1
+            p.push(isa::ja(-(n + 3)));
+        }
+        2 => {
+            p.push(isa::mov64i(6, 0));
+            p.push(I::new(0x15, 6, 0, n, 0));
+            p.extend(f);
+            p.push(isa::add64i(0, 1000));
+        }
+        3 => {
+            p.push(isa::ja(n));
+            p.extend(f);
+            p.push(isa::add64i(0, 1000));
+        }
+        _ => {
+            p.push(isa::mov64i(6, 0));
+            p.push(I::new(0x55, 6, 0, n, 0));
+            p.extend(f);
+            p.push(isa::add64i(0, 1000));
+        }
+    }
+    p.push(isa::EXIT);
+    p
+}
+
+/// The instruction P that precedes a jump target T and is skipped by a taken jump J.
+fn l5_pred() -> Vec<(&'static str, I)> {
+    vec![
+        ("add64 r6,1", isa::add64i(6, 1)),
+        ("add64 r6,-1", isa::add64i(6, -1)),
+        ("sub64 r6,r7", I::new(0x1f, 6, 7, 0, 0)),
+        ("and64 r6,0xff", I::new(0x57, 6, 0, 0, 0xff)),
+        ("or64 r6,1", I::new(0x47, 6, 0, 0, 1)),
+        ("xor64 r6,r6", I::new(0xaf, 6, 6, 0, 0)),
+        ("add32 r6,1", I::new(0x04, 6, 0, 0, 1)),
+        ("mov64 r6,r7", isa::mov64r(6, 7)),
+        ("mov64 r6,0", isa::mov64i(6, 0)),
+        ("neg64 r6", I::new(0x87, 6, 0, 0, 0)),
+        ("lsh64 r6,32", I::new(0x67, 6, 0, 0, 32)),
+        ("add64 r7,1", isa::add64i(7, 1)),
+        ("mov32 r6,r6", I::new(0xbc, 6, 6, 0, 0)),
+    ]
+}
+
+/// The jump-target instruction T: conditional jumps on r6 (taken -> r0 = 2, else r0 = 1), or an
+/// ALU instruction on r6 whose result is returned.
+fn l5_target() -> Vec<(String, I)> {
+    let mut v = vec![];
+    for (nm, op) in [("jeq", 0x10u8), ("jne", 0x50), ("jgt", 0x20), ("jge", 0x30), ("jlt", 0xa0), ("jle", 0xb0), ("jsgt", 0x60), ("jsge", 0x70), ("jslt", 0xc0), ("jsle", 0xd0), ("jset", 0x40)] {
+        for (cls, cn) in [(0x05u8, ""), (0x06, "32")] {
+            for imm in [0, 1, -1] {
+                v.push((format!("{nm}{cn} r6,{imm}"), I::new(op | cls, 6, 0, 2, imm)));
+            }
+            v.push((format!("{nm}{cn} r6,r7"), I::new(op | cls | 0x08, 6, 7, 2, 0)));
+        }
+    }
+    for (nm, i) in [("add64 r6,1", isa::add64i(6, 1)), ("rsh64 r6,32", I::new(0x77, 6, 0, 0, 32)), ("arsh64 r6,32", I::new(0xc7, 6, 0, 0, 32)),
+                    ("mov32 r6,r6", I::new(0xbc, 6, 6, 0, 0)), ("and64 r6,0xffff", I::new(0x57, 6, 0, 0, 0xffff)), ("add64 r6,r7", I::new(0x0f, 6, 7, 0, 0))] {
+        v.push((nm.to_string(), i));
+    }
+    v
+}
+
+pub fn l5_target_program(a: u64, b: u64, j: u8, p: I, t: I) -> Vec<I> {
+    let mut v = vec![];
+    v.extend(isa::lddw(6, a));
+    v.extend(isa::lddw(7, b));
+    v.push(match j {
+        0 => I::new(0x15, 7, 0, 1, 0), // jeq r7, 0, +1
+        1 => I::new(0x55, 7, 0, 1, 0), // jne r7, 0, +1
+        2 => I::new(0x65, 7, 0, 1, 0), // jsgt r7, 0, +1
+        _ => isa::ja(1),
+    });
+    v.push(p);
+    v.push(t);
+    if matches!(isa::kind(t.opc), Some(Kind::Jcc { .. })) {
+        v.push(isa::mov64i(0, 1));
+        v.push(isa::EXIT);
+        v.push(isa::mov64i(0, 2));
+        v.push(isa::EXIT);
+    } else {
+        v.push(isa::mov64r(0, 6));
+        v.push(isa::EXIT);
+    }
+    v
+}
+
+pub fn run_layer5(s: &mut Sink, eng: Eng, g: &mut u64) {
+    let thorough = s.tier == Tier::Thorough;
+    let (amax, bmax) = if thorough { (64usize, 128usize) } else { (32, 64) };
+    s.meta.insert("layer5".into(), json!({
+        "distance": format!("5 jump shapes (backward jcc loop, backward ja, forward jcc taken / not taken, forward ja) x a in 0..={amax} seven-byte fillers x b in 0..={bmax} three-byte fillers: every machine-code distance up to {} bytes, most of them several ways", 7 * amax + 3 * bmax),
+        "jump_targets": "J in {jeq, jne, jsgt r7,0,+1; ja +1} x P (13 ALU instructions, skipped when J is taken) x T (11 conditions x 64/32 bit x imm {0,1,-1} and reg; 6 ALU) x r6 in {0,1,-1,0xff,2^32} x r7 in {0,1}",
+    }));
+    let inputs = vec![(vec![], vec![])];
+    for a in 0..=amax {
+        let idx = *g;
+        *g += 1;
+        if !s.take(idx) {
+            continue;
+        }
+        if s.expired() {
+            s.cut("layer 5: distances");
+            return;
+        }
+        let rp0 = json!({"kind":"isa-l5-dist","eng":eng.name(),"a":a,"bmax":bmax});
+        s.mark(idx, &format!("{}/distance", eng.name()), &rp0);
+        let inputs2 = inputs.clone();
+        run_group(s, eng, "distance", &rp0, move |cs| {
+            for b in 0..=bmax {
+                for shape in 0..5u8 {
+                    let prog = l5_distance_program(shape, a, b);
+                    let c = ProgCase { kind: VmKind::NoData, prog: &prog, inputs: &inputs2, helpers: false, class: "distance", max_steps: 100_000, has_local_call: false };
+                    let rp = prog_replay(&c, eng);
+                    let st = check_prog(cs, eng, &c, &rp);
+                    if st.rejected {
+                        cs.violation("verifier/distance/rejects-template", "the default verifier rejected a well-formed program".into(), rp);
+                    }
+                }
+            }
+        });
+    }
+    s.done("layer 5: every jump distance");
+    let preds = l5_pred();
+    let targets = l5_target();
+    for (pi, (pn, p)) in preds.iter().enumerate() {
+        for j in 0..4u8 {
+            let idx = *g;
+            *g += 1;
+            if !s.take(idx) {
+                continue;
+            }
+            if s.expired() {
+                s.cut("layer 5: jump targets");
+                return;
+            }
+            let rp0 = json!({"kind":"isa-l5-target","eng":eng.name(),"pred":pi,"j":j});
+            s.mark(idx, &format!("{}/jump-target", eng.name()), &rp0);
+            let inputs2 = inputs.clone();
+            let targets2 = targets.clone();
+            let p = *p;
+            let _ = pn;
+            run_group(s, eng, "jump-target", &rp0, move |cs| {
+                for (_, t) in &targets2 {
+                    for a in [0u64, 1, u64::MAX, 0xff, 1 << 32] {
+                        for b in [0u64, 1] {
+                            let prog = l5_target_program(a, b, j, p, *t);
+                            let c = ProgCase { kind: VmKind::NoData, prog: &prog, inputs: &inputs2, helpers: false, class: "jump-target", max_steps: 1000, has_local_call: false };
+                            let rp = prog_replay(&c, eng);
+                            let st = check_prog(cs, eng, &c, &rp);
+                            if st.rejected {
+                                cs.violation("verifier/jump-target/rejects-template", "the default verifier rejected a well-formed program".into(), rp);
+                            }
+                        }
+                    }
+                }
+            });
+        }
+    }
+    s.done("layer 5: instructions that are jump targets");
+}
+
+// ------------------------------------------------------------------------------------------
+// Layer 6: successive executions on one VM object (packets at the same / another address, of
+// different lengths); the compiled program must track the interpreter run on a fresh VM
+
+pub fn run_layer6(s: &mut Sink, eng: Eng, g: &mut u64) {
+    if eng == Eng::Interp {
+        return;
+    }
+    let idx = *g;
+    *g += 1;
+    if !s.take(idx) {
+        return;
+    }
+    let rp0 = json!({"kind":"isa-l6","eng":eng.name()});
+    s.mark(idx, &format!("{}/reuse", eng.name()), &rp0);
+    run_group(s, eng, "reuse", &rp0, move |cs| l6_check(cs, eng));
+    s.done("layer 6: successive executions on one VM object");
+}
+
+fn l6_check(s: &mut Sink, eng: Eng) {
+    // r0 = (packet length << 8) | last packet byte, read through the context of each VM kind
+    let fixed = VmKind::Fixed(0x40, 0x50);
+    for kind in [fixed, VmKind::Raw, VmKind::Mbuff] {
+        let prog: Vec<I> = match kind {
+            VmKind::Fixed(a, b) => vec![
+                isa::ldxdw(2, 1, a as i16), isa::ldxdw(3, 1, b as i16), isa::mov64r(0, 3), I::new(0x1f, 0, 2, 0, 0), I::new(0x67, 0, 0, 0, 8),
+                isa::ldxb(4, 3, -1), I::new(0x4f, 0, 4, 0, 0), isa::EXIT,
+            ],
+            VmKind::Raw => vec![isa::ldxb(0, 1, 7), I::new(0x30, 0, 0, 0, 5), I::new(0x0f, 0, 0, 0, 0), isa::EXIT], // ldxb r0,[r1+7]; ldabsb 5 ...
+            _ => vec![isa::ldxb(0, 1, 3), I::new(0x30, 0, 0, 0, 2), isa::EXIT],
+        };
+        let prog: Vec<I> = if matches!(kind, VmKind::Raw) { vec![isa::ldxb(6, 1, 7), I::new(0x30, 0, 0, 0, 5), I::new(0x67, 0, 0, 0, 8), I::new(0x4f, 0, 6, 0, 0), isa::EXIT] }
+                           else if matches!(kind, VmKind::Mbuff) { vec![isa::ldxb(6, 1, 3), I::new(0x30, 0, 0, 0, 2), I::new(0x67, 0, 0, 0, 8), I::new(0x4f, 0, 6, 0, 0), isa::EXIT] }
+                           else { prog };
+        let bytes = isa::enc(&prog);
+        // the packet alphabet: (buffer, start offset inside it, length)
+        let alpha: [(usize, usize, usize); 5] = [(0, 0, 8), (0, 0, 16), (0, 0, 24), (1, 0, 16), (0, 8, 16)];
+        let bufs = [Buf::new(64, 0), Buf::new(64, 0)];
+        for (bi, b) in bufs.iter().enumerate() {
+            let img: Vec<u8> = (0..64u8).map(|k| k.wrapping_mul(5).wrapping_add(17 + 100 * bi as u8)).collect();
+            b.fill(&img);
+        }
+        let mbuf = Buf::new(16, 0);
+        mbuf.fill(&[0x31, 0x32, 0x33, 0x34, 0x35, 0x36, 0x37, 0x38, 0, 0, 0, 0, 0, 0, 0, 0]);
+        let mbraw = || if matches!(kind, VmKind::Mbuff) { mbuf.raw() } else { vm::empty_raw() };
+        let raw = |x: (usize, usize, usize)| (unsafe { bufs[x.0].ptr.add(x.1) }, x.2);
+        // expected value of each packet: the interpreter on a fresh VM
+        let mut want = vec![];
+        for x in alpha {
+            let mut vm = match AnyVm::new(kind, Some(&bytes)) { Ok(v) => v, Err(e) => { s.violation("verifier/reuse/rejects-template", e, json!({"kind":"none"})); return; } };
+            want.push(vm.exec_out(Eng::Interp, raw(x), mbraw()));
+        }
+        // every sequence of 1..=3 packets on one VM object
+        let n = alpha.len();
+        let mut seqs: Vec<Vec<usize>> = vec![];
+        for a in 0..n { seqs.push(vec![a]); for b in 0..n { seqs.push(vec![a, b]); for c in 0..n { seqs.push(vec![a, b, c]); } } }
+        for sq in seqs {
+            let mut vm = AnyVm::new(kind, Some(&bytes)).unwrap();
+            if let Err(e) = vm.compile(eng) {
+                s.violation(&format!("{}/reuse/compile-err", eng.name()), e, json!({"kind":"isa-l6","eng":eng.name()}));
+                return;
+            }
+            for (k, x) in sq.iter().enumerate() {
+                let got = vm.exec_out(eng, raw(alpha[*x]), mbraw());
+                s.count("evaluations", 1);
+                s.count("states", 1);
+                s.count("transitions", 1);
+                s.count("traces_validated_against_impl", 1);
+                if got != want[*x] {
+                    s.violation(&format!("{}/reuse@{}/value-mismatch", eng.name(), vm::kind_name(kind).split(':').next().unwrap()), format!("execution {} of packet sequence {:?} (buffer, offset, length: {:?}) returned {}, the interpreter on a fresh VM returns {}", k + 1, sq, sq.iter().map(|i| alpha[*i]).collect::<Vec<_>>(), show_out(&got), show_out(&want[*x])), json!({"kind":"isa-l6","eng":eng.name()}));
+                    break;
+                }
+                s.nontrivial_hashed(fnv(&bytes) ^ (sq.iter().fold(7u64, |h, i| h * 31 + *i as u64)) ^ ((k as u64) << 40));
+            }
+        }
+    }
+}
+
+fn show_out(o: &Out) -> String {
+    match o {
+        Out::Ok(v) => format!("{v:#x}"),
+        other => format!("{other:?}"),
+    }
+}
+
+pub fn replay_l5(v: &Value) -> Vec<String> {
+    let eng = Eng::parse(v["eng"].as_str().unwrap());
+    let mut s = Sink::new("replay", Tier::Quick, 0, 1, None, None, 3600);
+    run_group(&mut s, eng, "reuse", &v.clone(), move |cs| l6_check(cs, eng));
+    let r = s.finish();
+    r["violations"].as_array().unwrap().iter().map(|x| format!("{}: {}", x["sig"].as_str().unwrap(), x["detail"].as_str().unwrap())).collect()
+}
+
+// ------------------------------------------------------------------------------------------
 
 pub fn run(s: &mut Sink, eng: Eng) {
     let thorough = s.tier == Tier::Thorough;
@@ -1385,6 +1713,12 @@ pub fn run(s: &mut Sink, eng: Eng) {
     let want = |l: &str| only.as_deref().map_or(true, |o| o.split(',').any(|x| x == l));
     if want("1") {
         run_layer1(s, eng, &mut g);
+    }
+    if want("5") {
+        run_layer5(s, eng, &mut g);
+    }
+    if want("6") {
+        run_layer6(s, eng, &mut g);
     }
     if want("4") {
         run_layer4(s, eng, &mut g);
